@@ -147,7 +147,7 @@ impl Prop for C06 {
     }
 
     fn n_indices(&self, tier: Tier) -> u64 {
-        10000 * tier.scale()
+        40000 * tier.scale()
     }
 
     fn run_index(&self, idx: u64, seed: u64, _tier: Tier, rt: &mut Rt) -> Vec<Violation> {
